@@ -59,6 +59,9 @@ pub enum Op {
         fix: Option<usize>,
         #[serde(default, skip_serializing_if = "Option::is_none")]
         delta: Option<Val>,
+        /// with `fix`: spell the constant as two constant terms, "first" = [-eval(lc), delta], "last" = [delta, -eval(lc)]
+        #[serde(default, skip_serializing_if = "Option::is_none")]
+        split: Option<String>,
     },
     Append {
         label: String,
